@@ -1,8 +1,9 @@
 (* Entry point of the extracted evaluator. *)
 From Coq Require Import String.
-From HS Require Import Lib.Base Run.Val Run.ServeRun Run.ServeSpec.
+From HS Require Import Lib.Base Run.Val Run.ServeRun Run.ServeSpec Run.NegotRun.
 
 Definition E_SERVE := bs "serve"%string.
+Definition E_NEGOT := bs "negot"%string.
 
 Definition run_case (engine : bytes) (v : val) : val :=
   if beq_bytes engine E_SERVE then
@@ -20,4 +21,5 @@ Definition run_case (engine : bytes) (v : val) : val :=
         end
     | _ => VL [finding K_BAD engine (VL []) (VL [])]
     end
+  else if beq_bytes engine E_NEGOT then run_negot v
   else VL [finding K_BAD engine (VL []) (VL [])].
